@@ -89,7 +89,7 @@ func buildAsync(c asyncCase, tagName string) (*log.AsyncLogger, string, func(), 
 	return l, sinkName, l.Stop, nil
 }
 
-func appendEvent(l *log.AsyncLogger, level log.Level, id string) {
+func appendEvent(l interface{ Append(*log.Event) }, level log.Level, id string) {
 	e := log.GetEvent()
 	e.Level = level
 	e.Time = time.Unix(1700000000, 0)
@@ -150,6 +150,9 @@ func c04backlog(w *W) {
 	}
 }
 
+// raw payloads that carry no id: zero-length, bare line terminators, a blank, a NUL byte
+var c04anon = []string{"", "\n", "", "\r\n", " ", "\x00", "\n\n", "\r"}
+
 func c04Worker(w *W) {
 	if w.Spec.Kind == "backlog" {
 		c04backlog(w)
@@ -203,6 +206,8 @@ func c04Worker(w *W) {
 		}
 		subs := make([][]sub, c.Producers)
 		nEmpty := make([]int, c.Producers)
+		var anonMu sync.Mutex
+		anonSub, anonDel := map[string]int{}, map[string]int{}
 		var wg sync.WaitGroup
 		for p := 0; p < c.Producers; p++ {
 			pr := newRng(w.Spec.Seed, uint64(w.Spec.Shard)*7919+uint64(ci)*131+uint64(p))
@@ -212,8 +217,8 @@ func c04Worker(w *W) {
 				x := pr.IntN(100)
 				switch {
 				case x < c.RawPct && pr.IntN(12) == 0:
-					// a zero-length raw write is an item like any other (delivered once as an empty Write, or counted); it
-					// cannot carry an id, so it is accounted for by number
+					// a zero-length raw write - or a bare line terminator, a blank, a NUL - is an item like any other (delivered
+					// once, verbatim, or counted); it cannot carry an id, so these are accounted for by number per payload
 					kinds[i] = 3
 					nEmpty[p]++
 				case x < c.RawPct:
@@ -247,11 +252,15 @@ func c04Worker(w *W) {
 						l.Write([]byte("raw " + id + "\n"))
 						subs[p] = append(subs[p], sub{id, true})
 					case 3:
-						if i%2 == 0 {
+						pl := c04anon[(i+p)%len(c04anon)]
+						if pl == "" && i%2 == 0 {
 							l.Write(nil)
 						} else {
-							l.Write([]byte{})
+							l.Write([]byte(pl))
 						}
+						anonMu.Lock()
+						anonSub[pl]++
+						anonMu.Unlock()
 					}
 				}
 			}(p)
@@ -340,10 +349,13 @@ func c04Worker(w *W) {
 			if i := strings.IndexByte(id, 'c'); i > 0 {
 				orderSig.Write([]byte(id[:i])) // producer part only: the interleaving of producers as seen by the appender
 			}
-			if it.Kind == "write" && len(it.JSON) == 0 {
-				emptyDelivered++
-				nDelivered++
-				continue
+			if it.Kind == "write" && id == "" {
+				if _, known := anonSub[string(it.JSON)]; known {
+					anonDel[string(it.JSON)]++
+					emptyDelivered++
+					nDelivered++
+					continue
+				}
 			}
 			if id == "" {
 				ghost = trunc(string(it.JSON), 200)
@@ -356,12 +368,15 @@ func c04Worker(w *W) {
 		}
 		submittedEnabled := emptySubmitted
 		bad := false
-		if emptyDelivered > emptySubmitted || (c.Policy == "Block" && emptyDelivered != emptySubmitted) {
-			bad = true
-			w.Violate("C04:empty-raw-writes:"+c.Policy, fmt.Sprintf("[%s] %d zero-length raw writes were submitted, %d empty writes reached the appender", c.class(), emptySubmitted, emptyDelivered), c)
+		for pl, ns := range anonSub {
+			if nd := anonDel[pl]; nd > ns || (c.Policy == "Block" && nd != ns) {
+				bad = true
+				w.Violate("C04:anonymous-raw-writes:"+c.Policy, fmt.Sprintf("[%s] the raw payload %q was submitted %d times and reached the appender %d times", c.class(), pl, ns, nd), c)
+				break
+			}
 		}
-		w.Count("zero_length_raw_writes_submitted", int64(emptySubmitted))
-		w.Count("zero_length_raw_writes_delivered", int64(emptyDelivered))
+		w.Count("anonymous_raw_writes_submitted", int64(emptySubmitted))
+		w.Count("anonymous_raw_writes_delivered", int64(emptyDelivered))
 		for p := range subs {
 			for _, s := range subs[p] {
 				d := delivered[s.id]
